@@ -53,13 +53,15 @@ type provider struct {
 	qos                  uint64
 }
 
+// providers: deposits are twice the minimum (price x 1000) so that a provider that was slashed for an expired
+// request stays available for the following batches
 func providers() []provider {
 	promoStart := mc.GenesisTime.Add(-time.Hour).Format(time.RFC3339)
 	promoEnd := mc.GenesisTime.Add(240 * time.Hour).Format(time.RFC3339)
 	return []provider{
-		{"P1", "O1", fmt.Sprintf(`{"price":"100stake","promotions_by_time":[{"start_time":"%s","end_time":"%s","discount":"0.7"}]}`, promoStart, promoEnd), 100000, 2},
-		{"P2", "O1", `{"price":"100stake","promotions_by_volume":[{"volume":1,"discount":"0.5"}]}`, 100000, 2},
-		{"P3", "O2", `{"price":"61stake"}`, 61000, 4},
+		{"P1", "O1", fmt.Sprintf(`{"price":"100stake","promotions_by_time":[{"start_time":"%s","end_time":"%s","discount":"0.7"}]}`, promoStart, promoEnd), 200000, 2},
+		{"P2", "O1", `{"price":"100stake","promotions_by_volume":[{"volume":1,"discount":"0.5"}]}`, 200000, 2},
+		{"P3", "O2", `{"price":"61stake"}`, 122000, 4},
 	}
 }
 
